@@ -72,6 +72,9 @@ func casesTT(c *caseCtx) {
 				}
 				sc := randScore(c)
 				m := board.Move{From: board.Square(c.r.Intn(64)), To: board.Square(c.r.Intn(64)), Promotion: board.Piece(c.r.Intn(7)), Type: board.MoveType(c.r.Intn(10)), Piece: board.Piece(c.r.Intn(7))}
+				if c.r.Intn(4) == 0 {
+					m = board.Move{} // no best move: what the search stores at its leaves
+				}
 				ok := tt.Write(board.ZobristHash(h), bound, ply, depth, sc, m)
 				ops = append(ops, fmt.Sprintf("w:%x:%d:%d:%d:%s:%d:%d:%d", h, bound, ply, depth, scoreTok(sc), m.From, m.To, m.Promotion))
 				obs = append(obs, "w"+b01(ok))
